@@ -61,12 +61,12 @@ type aRes struct {
 }
 
 var extCode = map[string]uint16{
-	"sni": 0, "alpn": 16, "sv": 43, "ks": 51, "sg": 10, "psk": 41, "gr": 0x0a0a, "x1": 0x1234, "x2": 0x5678, "x9": 0x9999,
+	"sni": 0, "alpn": 16, "sv": 43, "ks": 51, "sg": 10, "psk": 41, "gr": 0x0a0a, "x0": 23, "x1": 0x1234, "x2": 0x5678, "x9": 0x9999,
 	"ech": 0xfe0d, "eoe": 0xfd00, "echdup": 0xfe0d, "echdupi": 0xfe0d,
 }
 
 var sniName = map[string]string{
-	"pub": "public.example.com", "priv": "private.example.com", "other": "other.example.net", "pubB": "public-b.example.org", "": "",
+	"pub": "public.example.com", "priv": "Private.Example.COM", "other": "other.example.net", "pubB": "public-b.example.org", "": "",
 }
 var alpnList = map[string][]string{"ao": {"http/1.1"}, "ai": {"h2", "http/1.1"}, "": nil}
 
@@ -429,6 +429,9 @@ func (s *sealer) extBody(h *aHello, x aExt, o encOpts, op string, zeroPayloadLen
 			}
 			return d
 		}
+		return nil
+	}
+	if x.T == "x0" { // an extension without a body (extended_master_secret)
 		return nil
 	}
 	return opaqueVal(x.V, o)
